@@ -1045,6 +1045,33 @@ impl BackupManager {
             }
         }
 
+        // A retained backup is only restorable together with its whole parent chain: keep every
+        // ancestor of a kept backup, whatever bucket it falls into.
+        let by_id: std::collections::HashMap<Uuid, &BackupMetadata> =
+            backups.iter().map(|b| (b.id, b)).collect();
+        let mut pending: Vec<Uuid> = to_keep.iter().copied().collect();
+        while let Some(id) = pending.pop() {
+            if let Some(parent_id) = by_id.get(&id).and_then(|b| b.parent_id) {
+                if by_id.contains_key(&parent_id) && to_keep.insert(parent_id) {
+                    pending.push(parent_id);
+                }
+            }
+        }
+        // Backups too young to be pruned stay as well, so their ancestors must stay too.
+        let min_age_seconds_for_chain = policy.min_age_days * day;
+        let mut pending: Vec<Uuid> = backups
+            .iter()
+            .filter(|b| now.saturating_sub(b.timestamp) < min_age_seconds_for_chain)
+            .map(|b| b.id)
+            .collect();
+        while let Some(id) = pending.pop() {
+            if let Some(parent_id) = by_id.get(&id).and_then(|b| b.parent_id) {
+                if by_id.contains_key(&parent_id) && to_keep.insert(parent_id) {
+                    pending.push(parent_id);
+                }
+            }
+        }
+
         // Delete backups not in keep set, respecting min_age_days
         let mut deleted = Vec::new();
         let min_age_seconds = policy.min_age_days * day;
